@@ -556,6 +556,11 @@ def gen_consent(rng, i):
     ops.append("net,0,0,%d,%d,3" % (delay, delay))
     ops += ["gather,0,1", "gather,1,1", "run,10"]
     meta = {"kind": "consent-" + kind, "ncomp": ncomp, "delay": delay, "opts": opts}
+    multi = kind == "idle" and rng.random() < 0.5
+    if multi:
+        # a second stream beside the judged one, removed on one or both sides once the session is up: the keepalives / consent checks of the
+        # remaining stream must go on (the keepalive timer is agent-wide)
+        ops += ["stream,0,1", "stream,1,1", "gather,0,2", "gather,1,2", "run,10", "creds,0,1,2", "creds,1,0,2", "cands,0,1,2,1", "cands,1,0,2,1"]
     if kind == "revoke":
         when = "ready" if reliable else rng.choice(["early", "mid", "ready"])
         who = rng.randrange(2); comp = rng.randrange(1, ncomp + 1)
@@ -591,7 +596,9 @@ def gen_consent(rng, i):
                 ops += ["send,%d,1,%d,64,%d" % (a, rng.randrange(1, ncomp + 1), rng.randrange(200)) for a in (0, 1)]
             meta.update(dirs=dirs, dur=dur)
         else:
-            for _ in range(rng.choice([4, 12])):
+            rm = [(rng.randrange(0, 5), a) for a in rng.choice([(0,), (1,), (0, 1)])] if multi else []
+            for k in range(rng.choice([4, 12])):
+                ops += ["remove_stream,%d,2" % a for (kk, a) in rm if kk == k]
                 ops += ["run,%d" % rng.choice([20000, 45000, 70000])] + ["send,%d,1,1,10,%d" % (a, rng.randrange(200)) for a in (0, 1)]
     ops += ["run,1000"] + final_queries(ncomp)
     return "cons%d %s" % (i, " ".join(ops)), meta
@@ -648,6 +655,9 @@ def oracle_consent_reliable(evs, meta):
     if ready is None or ready > t_rev:
         return None
     failed = next((e.t for e in evs if e.kind == "sig" and e.f[0] == victim and e.f[1] == "state" and e.f[3] == comp and e.f[4] == "FAILED" and e.t >= t_rev), None)
+    end_t = max(e.t for e in evs if e.kind == "api")
+    if failed is None and end_t < t_rev + 8000:
+        return None      # the run ends before a consent check (every 4..6 s) and its 403 answer were due
     if failed is None or failed > t_rev + 8000:
         return "agent %s did not announce FAILED within 8 s of the peer revoking its consent at t=%d (403 answers to its consent checks)" % (victim, t_rev)
     for e in evs:
@@ -670,9 +680,9 @@ def oracle_consent(evs, meta):
             cs = str(c)
             ready_t = None; failed_t = None; sel = None; sel_t = None
             for e in evs:
-                if e.kind == "sig" and e.f[0] == str(x) and e.f[1] == "selected-pair" and e.f[3] == cs:
+                if e.kind == "sig" and e.f[0] == str(x) and e.f[1] == "selected-pair" and e.f[2] == "1" and e.f[3] == cs:
                     sel = (e.f[4], e.f[5]); sel_t = e.t
-                if e.kind == "sig" and e.f[0] == str(x) and e.f[1] == "state" and e.f[3] == cs:
+                if e.kind == "sig" and e.f[0] == str(x) and e.f[1] == "state" and e.f[2] == "1" and e.f[3] == cs:
                     if e.f[4] in ("CONNECTED", "READY") and ready_t is None:
                         ready_t = e.t      # a pair is selected from CONNECTED on (a component revived later by the peer's checks would otherwise hide the first FAILED)
                     if e.f[4] == "FAILED" and ready_t is not None and failed_t is None:
